@@ -439,6 +439,30 @@ func candidateHandedDown(r *an.Run, rule string) {
 			continue
 		}
 		for _, vc := range an.VerdictCalls(f) {
+			// matchEach(ms, accessor, d, r): the candidates handed down are what the accessor yields —
+			// elements of its base
+			if _, atIdx, isEach := asMatchEachHelper(an.StaticCallee(vc.Call)); isEach && atIdx < len(vc.Call.Call.Args) {
+				n++
+				bad := ""
+				if acc, okAcc := accessorOf(vc.Call.Call.Args[atIdx]); okAcc && acc.base != nil {
+					for _, o := range candidateOrigins(acc.base) {
+						okOrigin := false
+						for _, p := range own {
+							if o == p {
+								okOrigin = true
+							}
+						}
+						if !okOrigin {
+							bad = an.Describe(o)
+						}
+					}
+				} else {
+					bad = "a function value that is not a plain element accessor"
+				}
+				key := short(f) + "|" + an.TrimModule(an.CalleeName(vc.Call))
+				r.Check(bad == "", key, vc.Call.Pos(), "the candidate handed to the sub-matcher is a projection (Elem / Field / Index / element) of this matcher's own candidate%s", ifNonEmpty(bad, " — found a value that is not: "+bad+"; what a metavariable below captures would not be the code at the matched position"))
+				continue
+			}
 			for ai, a := range an.CallArgs(vc.Call) {
 				isList := false
 				if sl, ok := a.Type().Underlying().(*types.Slice); ok && isReflectValue(sl.Elem()) {
@@ -480,6 +504,13 @@ func candidateOrigins(v ssa.Value) []ssa.Value {
 		switch x := root.(type) {
 		case *ssa.Parameter:
 			return []ssa.Value{x}
+		case *ssa.Call:
+			// collect(n, got.Index): the list of the candidate's elements
+			if _, atIdx, isMap := asMapHelper(an.StaticCallee(x)); isMap && atIdx < len(x.Call.Args) {
+				if acc, okAcc := accessorOf(x.Call.Args[atIdx]); okAcc && acc.base != nil {
+					return reflectOrigins(acc.base)
+				}
+			}
 		case *ssa.MakeSlice:
 			var out []ssa.Value
 			for _, b := range x.Parent().Blocks {
